@@ -981,12 +981,22 @@ func (d *docState) chain(n int, r *sim.Rand) []FilterSpec {
 		return []FilterSpec{{Name: "ASCIIHexDecode"}}
 	case 3:
 		return []FilterSpec{{Name: "ASCII85Decode"}}
-	case 4:
-		return []FilterSpec{{Name: "ASCII85Decode"}, {Name: "FlateDecode", Columns: 1, Colors: 1}}
-	case 5:
-		return []FilterSpec{{Name: "ASCIIHexDecode"}, {Name: "FlateDecode", Columns: 1, Colors: 1}}
-	case 6:
-		return []FilterSpec{{Name: "ASCIIHexDecode"}, {Name: "ASCII85Decode"}, {Name: "FlateDecode", Columns: 1, Colors: 1}}
+	case 4, 5, 6:
+		// chains: the parameters of the Flate stage sit in a /DecodeParms array whose other
+		// entries are null
+		f := FilterSpec{Name: "FlateDecode", Columns: 1, Colors: 1}
+		if sp.Predictor >= 2 && n > 0 {
+			if cols, colors, ok := chooseGeometry(r, n); ok {
+				f.Predictor, f.Columns, f.Colors = sp.Predictor, cols, colors
+			}
+		}
+		switch sp.Filter {
+		case 4:
+			return []FilterSpec{{Name: "ASCII85Decode"}, f}
+		case 5:
+			return []FilterSpec{{Name: "ASCIIHexDecode"}, f}
+		}
+		return []FilterSpec{{Name: "ASCIIHexDecode"}, {Name: "ASCII85Decode"}, f}
 	case 7:
 		return []FilterSpec{{Name: "FlateDecode", Columns: 1, Colors: 1, ParmsMode: 1}}
 	case 8:
